@@ -378,26 +378,21 @@ fn list_inhabited(
             };
             let neg_len = nt.prefix_items.len();
             if len < neg_len {
-                if items.is_never() {
+                // a rest type without values (`never`, or e.g. `[never]`) cannot extend the list
+                if items.is_never() || items.is_empty(builder)? {
                     return list_inhabited(prefix_items, items, &neg.next, builder);
                 }
                 // Lists with fewer than `neg_len` elements are not in `nt`:
                 // they only have to avoid the remaining negated tuples.
-                if !items.is_empty(builder)? {
-                    let never: Rc<SemType> = SemTypeContext::never().into();
-                    for _i in len..neg_len {
-                        let mut shorter = prefix_items.clone();
-                        if let ListInhabited::Yes =
-                            list_inhabited(&mut shorter, &never, &neg.next, builder)?
-                        {
-                            return Ok(ListInhabited::Yes);
-                        }
-                        prefix_items.push(items.clone());
+                let never: Rc<SemType> = SemTypeContext::never().into();
+                for _i in len..neg_len {
+                    let mut shorter = prefix_items.clone();
+                    if let ListInhabited::Yes =
+                        list_inhabited(&mut shorter, &never, &neg.next, builder)?
+                    {
+                        return Ok(ListInhabited::Yes);
                     }
-                } else {
-                    for _i in len..neg_len {
-                        prefix_items.push(items.clone());
-                    }
+                    prefix_items.push(items.clone());
                 }
                 len = neg_len;
             } else if neg_len < len && nt.items.is_never() {
